@@ -13,7 +13,7 @@ LEVEL_TEXT = ("Static structural proof of necessary conditions: (R18.1) in creat
               "before any run; (R18.5) a backup becomes listed only past the two-entry test and both consistency "
               "raises. Byte identity, interruption at arbitrary I/O steps (the record write itself is not atomic) and "
               "idempotence of re-running are NOT decided.")
-LEVEL_EXTRA = 'Added after the seeded evaluation: (R18.2) the name tested by the same-name refusal is the name used by every write (no re-definition in between); (R18.4) the data tree is scanned (file list, task parsing) only after the restore. The same-name refusal also consults the file system; the task filter is not a substring test. (R18.5) a backup key is the relative path joined unchanged. (R18.6) no case normalisation of path components in get_path_components / get_file_key. (R18.7) every caller of the consistency check tests both discrepancy lists and raises. (R18.8) every restore in the CLI passes the task names.'
+LEVEL_EXTRA = 'Added after the seeded evaluation: (R18.2) the name tested by the same-name refusal is the name used by every write (no re-definition in between); (R18.4) the data tree is scanned (file list, task parsing) only after the restore. The same-name refusal also consults the file system; the task filter is not a substring test. (R18.5) a backup key is the relative path joined unchanged. (R18.6) no case normalisation of path components in get_path_components / get_file_key. (R18.7) every caller of the consistency check tests both discrepancy lists and raises. (R18.8) every restore in the CLI passes the task names. (R18.9) a parameter is handed on to every repository callee that takes a parameter of the same name (11 frozen exceptions package-wide).'
 
 COPY_NAMES = ("copy", "copy2", "copyfile", "copytree", "move")
 
@@ -391,6 +391,11 @@ def run(ctx):
                           "the restore is made without the task selection: a run restricted to one task restores every backed-up file "
                           "first, silently reverting files of the other tasks", desc="%s: restore receives the task names" % f.short)
     ctx.floor("R18.8", "restore_backup calls in the CLI", n_rest, 2)
+
+    # ---------------- R18.9: parameters are handed on to same-named parameters of repository callees
+    from sa.forward import check_forwarding
+    nfw = check_forwarding(ctx, "R18.9", [f for f in prog.functions.values() if f.module.name.startswith(('hed.tools.remodeling.backup_manager', 'hed.tools.remodeling.cli'))], 'e.g. the backup name, the task names')
+    ctx.floor("R18.9", "same-named parameter sites", nfw, 1)
 
 
 def _negated(test):
